@@ -574,6 +574,9 @@ func (push *Push) runTask(input *pushNotify) {
 	//触发goroutine运行
 	push.updateLastSeq(input.subscribe.Name)
 
+	// mark the task running before its goroutine is scheduled: a repeated subscribe request arriving
+	// in between would otherwise start a second task for the same subscriber (duplicate pushes)
+	atomic.StoreInt32(&input.status, running)
 	push.postwg.Add(1)
 	go func(in *pushNotify) {
 		var lastesBlockSeq int64
